@@ -46,12 +46,14 @@ type Step struct {
 // Env is the state of the harness: the slots.
 type Env struct {
 	Slots []error // index 0 unused
+	// HopN counts the hops each slot's value has made since it was built.
+	HopN []int
 	// Info about the last Hop executed.
 	LastHop *wire.HopInfo
 }
 
 // NewEnv creates an environment with n empty slots.
-func NewEnv(n int) *Env { return &Env{Slots: make([]error, n+1)} }
+func NewEnv(n int) *Env { return &Env{Slots: make([]error, n+1), HopN: make([]int, n+1)} }
 
 func (env *Env) src(st *Step, i int) error {
 	if len(st.Src) <= i {
@@ -111,7 +113,15 @@ func (env *Env) Exec(st *Step) (panicked string) {
 		}
 	}()
 	env.LastHop = nil
+	n := 0
+	if (st.Op == "Hop" || st.Op == "Copy") && len(st.Src) > 0 {
+		n = env.HopN[st.Src[0]]
+	}
 	env.Slots[st.Dst] = env.build(st)
+	if st.Op == "Hop" {
+		n++
+	}
+	env.HopN[st.Dst] = n
 	return ""
 }
 
@@ -156,6 +166,8 @@ func (env *Env) build(st *Step) error {
 			return &utypes.USafeMsgLeaf{Msg: s, Safe: at(st.A, 1)}
 		case "uProtoLeaf":
 			return &errorspb.TestError{}
+		case "uMaybe":
+			return &utypes.UMaybe{Msg: s}
 		}
 		panic("harness: unknown ULeaf kind " + st.A[0][0])
 	case "Wrap":
@@ -241,6 +253,8 @@ func (env *Env) build(st *Step) error {
 			return &utypes.UAnnotWrap{Err: e}
 		case "uKeyWrap":
 			return &utypes.UKeyWrap{Key: s, Err: e}
+		case "uMaybe":
+			return &utypes.UMaybe{Msg: s, Err: e}
 		}
 		panic("harness: unknown UWrap kind " + st.A[0][0])
 	case "Join", "JoinPkg", "GoJoin":
